@@ -5,14 +5,18 @@ from pyformlang.regular_expression import PythonRegex
 from ..core import CaseResult, outcome
 
 ID = "C07"
-LEVEL = "translation_validation"
+LEVEL = "proof"
 RULE = ("random patterns generated from the documented subset (literals, escaped metacharacters, '.', sets and negated "
         "sets with ranges (incl. ranges between arbitrary printable characters, metacharacters as endpoints), alternation, nested groups, * + ? {m} {m,n} incl. m=0 and m=n, quantifier on group/set/escape, "
         "\\d \\s \\w) x all strings of length <=3 over a 7-character printable alphabet plus random longer ones and probe characters derived from the pattern (range endpoints, their neighbours, midpoints); "
         "PythonRegex(p).accepts(s) is compared with re.fullmatch(p, s); half of the patterns are generated as ASTs of the formal subset, for which the tree built by PythonRegex is also compared (whole language) with the verified reference translation; patterns rejected by re.compile must be "
         "rejected. Non-trivial: pattern with >=2 operators.")
-EXPLANATION = "CPython's re engine is the specification named by the property and cannot be stated in Lean. What is formal: a semantics of the documented subset (Pfl/Model/PyRegex.lean: Matches) with a reference translation into plain regular expressions proved to denote it (desugar_denote, matches_iff_Matches). Half of the cases are generated as ASTs of that subset: (1) the formal semantics is compared with re.fullmatch on every string (ties the Lean semantics to CPython), (2) the tree PythonRegex builds is compared with the reference translation by the verified language-equivalence oracle (whole language over string.printable, when the tree has at most 40 leaves), (3) accepts() is compared with re.fullmatch on the sampled strings. The other half are free-text patterns decided by re.fullmatch / re.compile only. The seven textual rewriting passes are modelled step for step (Pfl/Model/PyRegexPasses.lean) and the text they hand to Regex is compared exactly on every ASCII pattern; no theorem relates the passes to the reference translation (only transform_plain: words of letters and digits pass through unchanged)."
-THEOREMS = ["Pfl.PyPass.transform_plain",
+EXPLANATION = "CPython's re engine is the specification named by the property and cannot be stated in Lean; what is formal is a semantics of the documented subset (Pfl/Model/PyRegex.lean: Matches), compared with re.fullmatch on every generated string. Against that semantics the whole pipeline is proved correct on the models: pythonRegex_correct_stage4 states that for every pattern of the subset (literals incl. escaped metacharacters, '.', shortcuts, sets and negated sets with ranges, alternation, groups, * + ? {m} {m,n}) the rendered text goes through the model of the seven rewriting passes (Pfl/Model/PyRegexPasses.lean) and the model of the reader of Regex (Pfl/Model/Regex.lean) to a tree that denotes exactly the meaning of the pattern over string.printable. The models are tied to the code on every case: the text the passes hand to Regex is compared exactly, the tree built by PythonRegex is compared with the reference translation by the verified language-equivalence oracle (whole language, trees up to 40 leaves), accepts() with re.fullmatch on sampled strings; the Lean rendering of the AST with the generator's text."
+THEOREMS = ["Pfl.PyRx.pythonRegex_correct_stage4",
+            "Pfl.PyRx.pythonRegex_correct_stage3",
+            "Pfl.PyRx.pythonRegex_correct_stage2",
+            "Pfl.PyRx.pythonRegex_correct_stage1",
+            "Pfl.PyPass.transform_plain",
             "Pfl.PyRx.desugar_denote",
             "Pfl.PyRx.matches_iff_Matches",
             "Pfl.PyRx.desugar_chars",
